@@ -183,6 +183,10 @@ int main(void)
                 reflection_Schema_table_t S = reflection_Schema_as_root(bfbs);
                 if (!strcmp(tok[0], "lit")) {
                     reflection_Field_table_t f = reflection_Field_vec_at(reflection_Object_fields(reflection_Object_vec_at(reflection_Schema_objects(S), 0)), 0);
+                    if (!strcmp(tok[2], "float") || !strcmp(tok[2], "double")) {    /* real default: the bits of the double the schema records */
+                        double dr = reflection_Field_default_real(f); uint64_t bits; memcpy(&bits, &dr, 8);
+                        printf("ok r%016" PRIx64 "\n", bits);
+                    } else
                     printf("ok %" PRIu64 "\n", (uint64_t)reflection_Field_default_integer(f));
                 } else {
                     reflection_EnumVal_vec_t vs = reflection_Enum_values(reflection_Enum_vec_at(reflection_Schema_enums(S), 0)); size_t j;
